@@ -2,7 +2,7 @@
 from .srv import SrvFamily
 from .fe import FeFamily
 
-PROPS_MODULES = ["C09"]
+PROPS_MODULES = ["C09", "C09Dispatch"]
 RULE = ("family `srv` (malformed + well-formed modes): request histories with 0..40 fresh memfds attached at arbitrary positions (on "
         "requests that take none, with wrong counts, beyond the 32-descriptor limit, on garbage), early close, teardown after the "
         "last step of every scenario; after dropping handler, endpoint and sockets the process's descriptor table is scanned "
